@@ -14,7 +14,7 @@ from vf.sx.core import cur
 from vf.sx.ob import Case
 
 CHAINS = ["A", "B", "AA", "A'"]
-RESIDS = [1, 2, -1, 10, 128]
+RESIDS = [1, 2, -1, 10, 128, -300]
 # atom names belong to the residue type (as in real files)
 ATOMNAMES = [["N", "CA", "C"], ["N", "CA", "C"], ["C1\"", "O5'", "C3"], ["N", "CA", "C"]]
 RESN = ["ALA", "GLY", "LIG", "SER"]
@@ -38,6 +38,8 @@ def build(sel):
     """sel: dict of menu choices -> AtomArray / AtomArrayStack with 2 residues x 3 atoms"""
     import biotite.structure as struc
     r1, r2 = sel["res1"], sel["res2"]
+    if sel.get("same"):
+        r2 = r1                # two residues of the same type (they may then differ by insertion code only)
     names = ATOMNAMES[r1] + ATOMNAMES[r2]
     n = 6
     arr = struc.AtomArray(n)
@@ -173,15 +175,16 @@ def check_roundtrip(sel):
 
 
 SEL_KEYS = ["res1", "res2", "chain1", "chain2", "rid1", "rid2", "ins", "opt", "bond", "link", "box", "models"]
-SEL_RANGE = dict(res1=4, res2=4, chain1=4, chain2=4, rid1=5, rid2=5, ins=4, opt=16, bond=9, link=2, box=3, models=2)
+SEL_RANGE = dict(same=2, res1=4, res2=4, chain1=4, chain2=4, rid1=len(RESIDS), rid2=len(RESIDS), ins=4, opt=16, bond=9, link=2, box=3, models=2)
 
 
 def ob_roundtrip(tier):
     """each case varies 3-4 selector dimensions symbolically and fixes the others"""
     cases = []
-    DEFAULT = dict(res1=0, res2=1, chain1=0, chain2=0, rid1=0, rid2=1, ins=0, opt=0, bond=0, link=0, box=0, models=0)
+    DEFAULT = dict(same=0, res1=0, res2=1, chain1=0, chain2=0, rid1=0, rid2=1, ins=0, opt=0, bond=0, link=0, box=0, models=0)
     groups = [("res1", "res2", "bond", "link"), ("chain1", "chain2", "rid1", "rid2"), ("ins", "rid1", "rid2", "models"),
-              ("opt", "box", "models"), ("bond", "link", "chain2", "models"), ("res1", "res2", "opt")]
+              ("opt", "box", "models"), ("bond", "link", "chain2", "models"), ("res1", "res2", "opt"),
+              ("same", "ins", "rid1", "rid2", "res1")]
     if tier == "thorough":
         groups += [("res1", "res2", "bond", "link", "chain2"), ("opt", "bond", "box", "models", "ins")]
     for grp in groups:
